@@ -169,6 +169,10 @@ void h_load(void)
   /* a kernel symbol table lists each __ksymtab_<name> / __crc_<name> entry once */
   for (int i = 0; i < NSYM; i++) for (int j = 0; j < i; j++) __CPROVER_assume(!(namesel[i] >= 4 && namesel[i] == namesel[j]));
 #endif
+#ifdef KSYM_CONCRETE
+  /* entry 0 is __ksymtab_f, entry 1 is f (names concrete, everything else about the entries symbolic) */
+  namesel[0] = 4; namesel[1] = 2; getsym_fails[0] = getsym_fails[1] = 0; have_scn = have_data = 1; sh_entsize = 24;
+#endif
 #ifdef KSYM_FOCUS
   /* the __ksymtab_ interplay needs two entries: everything the ksymtab marking does not depend on is concrete */
   __CPROVER_assume(is_kernel && have_scn && have_data && sh_entsize == 24);
